@@ -316,7 +316,10 @@ class ParameterConfigConverter:
       else:
         raise ValueError('DOUBLE type cannot have child parameters')
       if child.child_parameter_configs:
-        cls._set_child_parameter_configs(child_proto, child)
+        # NOTE: `parameter_spec=child_proto` above made a copy of child_proto.
+        cls._set_child_parameter_configs(
+            conditional_parameter_spec.parameter_spec, child
+        )
       parent_proto.conditional_parameter_specs.extend(
           [conditional_parameter_spec]
       )
